@@ -565,6 +565,42 @@ func c08DecoderFor(c *Ctx) {
 			}
 		}
 	})
+	if len(facts) == 0 {
+		// the list as a package-level array or slice literal that is never reassigned
+		eachInstr(fn, func(i ssa.Instruction) {
+			var g *ssa.Global
+			switch x := i.(type) {
+			case *ssa.IndexAddr:
+				g, _ = x.X.(*ssa.Global)
+			case *ssa.UnOp:
+				if x.Op == token.MUL {
+					g, _ = x.X.(*ssa.Global)
+				}
+			}
+			if g == nil || len(facts) > 0 {
+				return
+			}
+			elemIsFactory := false
+			switch t := g.Type().(*types.Pointer).Elem().Underlying().(type) {
+			case *types.Array:
+				elemIsFactory = isNamedType(t.Elem(), "lib", "DecoderFactory")
+			case *types.Slice:
+				elemIsFactory = isNamedType(t.Elem(), "lib", "DecoderFactory")
+			}
+			if !elemIsFactory {
+				return
+			}
+			if lit := globalLiteral(c, g); lit != nil {
+				for _, f := range lit.ElemFuncs {
+					if f != nil {
+						facts = append(facts, f.Name())
+					} else {
+						facts = append(facts, "?")
+					}
+				}
+			}
+		})
+	}
 	sort.Strings(facts)
 	c.Check(strings.Join(facts, ",") == "NewCSVDecoder,NewDecoder,NewJSONDecoder", "factory-list:lib.DecoderFor", rF, strings.Join(facts, ","), "factory list is "+strings.Join(facts, ","), c.fnAt(fn))
 }
